@@ -120,10 +120,133 @@ def _rendered_width(fmt: str):
         if w:
             width += int(w)
         elif typ in ("E", "e") and prec is not None and sign == "+":
-            width += 1 + 1 + 1 + int(prec) + 4  # sign d . ppp E+xx
+            width += 1 + 1 + 1 + int(prec) + 4  # sign d . ppp E+xx   (nominal: two exponent digits)
         else:
             raise AnalysisError(f"format spec `{spec}` has no fixed width")
     return (width, coef)
+
+
+def _float_width_range(fmt: str):
+    """[min, max] number of characters str.format(fmt) renders for ANY Python float: a `+.pE` field is
+    1+1+1+p+4 wide for |exponent| < 100, one more for three-digit exponents (1e-100, 1e+100 ...) and
+    only sign+3 for inf/nan; an explicit width is a minimum, not a maximum."""
+    import re
+
+    lo = hi = 0
+    for lit, field, spec, conv in string.Formatter().parse(fmt):
+        lo += len(lit)
+        hi += len(lit)
+        if field is None:
+            continue
+        m = re.fullmatch(r"(?:(.)?([<>=^]))?([+\- ])?(#)?(0)?(\d+)?([,_])?(?:\.(\d+))?([a-zA-Z%])?", spec or "")
+        if not m or m.group(9) not in ("E", "e") or m.group(8) is None:
+            raise AnalysisError(f"float format spec `{spec}` outside the analysed fragment (only [sign][width].precE)")
+        sign, w, prec = m.group(3), int(m.group(6) or 0), int(m.group(8))
+        s = 1 if sign in ("+", " ") else 0  # negative numbers always carry a sign: max counts it
+        flo = min(s + 3, s + 1 + 1 + prec + 4)  # inf / nan
+        fhi = 1 + 1 + 1 + prec + 5  # sign d . ppp E+xxx
+        lo += max(flo, w)
+        hi += max(fhi, w)
+    return lo, hi
+
+
+def _counter_total(idx, cls, meth, seen=()):
+    """(length-coef, bytes) added to byteCount by cls.meth, following self.rw* delegation inside the class."""
+    f = cls.methods.get(meth)
+    if f is None or meth in seen:
+        return None if f is None else (0, 0)
+    tot = (0, 0)
+    for s in iter_stores(f.node):
+        if s.kind == "aug" and s.chain == "self.byteCount" and isinstance(s.stmt.op, ast.Add):
+            k = _size_expr(idx, cls, s.stmt.value)
+            tot = (tot[0] + k[0], tot[1] + k[1])
+    for c in iter_calls(f.node):
+        if isinstance(c.func, ast.Attribute) and dotted(c.func.value) == "self" and c.func.attr in PRIMS and c.func.attr != meth:
+            sub = _counter_total(idx, cls, c.func.attr, seen + (meth,))
+            if sub:
+                tot = (tot[0] + sub[0], tot[1] + sub[1])
+    return tot
+
+
+def _ascii_float_text_range(idx, cls, f, depth=0):
+    """Interval [min, max] of the length of the text appended to self.data by an ascii float writer.
+    Fragment: text = FMT.format(v) | helper call; if len(text) > K: text = FMT2.format(v); text.rjust(K)/ljust(K)."""
+    env = {}
+
+    def fold_int(n):
+        v = idx.fold(cls.module, n, cls=cls)
+        if isinstance(v, int):
+            return v
+        raise AnalysisError(f"{f.qualname}: `{norm(n)}` is not a constant width")
+
+    def rng(e):
+        if isinstance(e, ast.Name) and e.id in env:
+            return env[e.id]
+        if isinstance(e, ast.Call) and isinstance(e.func, ast.Attribute):
+            if e.func.attr == "format":
+                fv, strip = e.func.value, None
+                if isinstance(fv, ast.Call) and isinstance(fv.func, ast.Attribute) and fv.func.attr in ("strip", "lstrip", "rstrip") and not fv.args:
+                    fv, strip = fv.func.value, fv.func.attr
+                fmt = idx.fold(cls.module, fv, cls=cls)
+                if isinstance(fmt, str) and strip:
+                    fmt = getattr(fmt, strip)()
+                if not isinstance(fmt, str):
+                    raise AnalysisError(f"{f.qualname}: format string of `{norm(e)[:60]}` does not fold")
+                return _float_width_range(fmt)
+            if e.func.attr in ("rjust", "ljust", "center") and e.args:
+                lo, hi = rng(e.func.value)
+                k = fold_int(e.args[0])
+                return max(lo, k), max(hi, k)
+            if dotted(e.func.value) == "self" and depth < 3:
+                g = cls.resolve(e.func.attr)
+                if g is not None:
+                    return _ascii_float_text_range(idx, cls, g, depth + 1)
+        raise AnalysisError(f"{f.qualname}: text expression `{norm(e)[:60]}` outside the analysed fragment")
+
+    def len_guard(test):
+        if (isinstance(test, ast.Compare) and len(test.ops) == 1 and isinstance(test.left, ast.Call) and dotted(test.left.func) == "len"
+                and isinstance(test.left.args[0], ast.Name)):
+            return test.left.args[0].id, test.ops[0], fold_int(test.comparators[0])
+        return None
+
+    result = None
+
+    def block(stmts):
+        nonlocal result
+        for st in stmts:
+            if isinstance(st, ast.Expr) and isinstance(st.value, ast.Constant):
+                continue
+            if isinstance(st, ast.Assign) and len(st.targets) == 1 and isinstance(st.targets[0], ast.Name):
+                env[st.targets[0].id] = rng(st.value)
+            elif isinstance(st, ast.If) and not st.orelse and len_guard(st.test):
+                nm, op, k = len_guard(st.test)
+                if nm not in env or not isinstance(op, (ast.Gt, ast.NotEq)):
+                    raise AnalysisError(f"{f.qualname}: guard `{norm(st.test)}` outside the analysed fragment")
+                lo, hi = env[nm]
+                before = dict(env)
+                block(st.body)
+                taken = env[nm]
+                # not taken: len <= k (Gt) or len == k (NotEq)
+                nt = (min(lo, k), min(hi, k)) if isinstance(op, ast.Gt) else (k, k)
+                env.update(before)
+                env[nm] = (min(nt[0], taken[0]), max(nt[1], taken[1]))
+            elif isinstance(st, ast.Raise):
+                return
+            elif isinstance(st, ast.AugAssign):
+                continue  # numBytes accounting
+            elif isinstance(st, ast.Expr) and isinstance(st.value, ast.Call) and call_attr(st.value) == "append" and dotted(st.value.func.value) == "self.data":
+                result = rng(st.value.args[0])
+            elif isinstance(st, ast.Return):
+                if depth and st.value is not None:
+                    result = rng(st.value)
+                return
+            else:
+                raise AnalysisError(f"{f.qualname}: statement `{norm(st)[:60]}` outside the analysed fragment")
+
+    block(f.node.body)
+    if result is None:
+        raise AnalysisError(f"{f.qualname}: no text appended to self.data / returned")
+    return result
 
 
 def r1_primitive_symmetry(idx, r):
@@ -170,11 +293,17 @@ def r1_primitive_symmetry(idx, r):
                 tot = (tot[0] + c0, tot[1] + k)
         return f, tot
 
-    def writer_fmt(meth):
+    def writer_fmt(meth, depth=0):
         f = awr.resolve(meth)
         for c in iter_calls(f.node):
             if isinstance(c.func, ast.Attribute) and c.func.attr == "format":
                 return f, idx.fold(awr.module, c.func.value, cls=awr), c
+        for c in iter_calls(f.node):  # a formatting helper of the same class
+            if depth < 2 and isinstance(c.func, ast.Attribute) and dotted(c.func.value) == "self" and awr.resolve(c.func.attr) is not None and c.func.attr not in PRIMS:
+                try:
+                    return writer_fmt(c.func.attr, depth + 1)
+                except AnalysisError:
+                    pass
         raise AnalysisError(f"AsciiRecordWriter.{meth}: no format call")
 
     for meth in ("rwInt", "rwFloat", "rwString"):
@@ -183,6 +312,30 @@ def r1_primitive_symmetry(idx, r):
         w = _rendered_width(fmt)
         r.require(w == rl, f"ascii:{meth}:width", fw, node=node,
                   msg=f"writer renders {w} (chars, length-coef) with `{fmt}` but reader consumes {rl}")
+    # every float (three-digit exponents, inf, nan included) must render to exactly the reader's field width
+    for meth in ("rwFloat", "rwDouble"):
+        fr, rl = reader_len("rwFloat")
+        fw = awr.resolve(meth)
+        rng = _ascii_float_text_range(idx, awr, fw)
+        r.require(rng == (rl[0], rl[0]), f"ascii:{meth}:width-for-every-float", fw,
+                  msg=f"the writer renders a float into between {rng[0]} and {rng[1]} characters (three-digit exponents such as 1e-100 take one more, "
+                      f"inf/nan fewer) but the reader always consumes {rl[0]}: every later field of the record is misread")
+    # byte accounting: stream code computes 'what is left in this record' from numBytes - byteCount
+    users = []
+    for m in _cccc_modules(idx):
+        for f in m.all_funcs():
+            if f.cls is not None and f.cls.name in ("IORecord", "BinaryRecordReader", "BinaryRecordWriter", "AsciiRecordReader", "AsciiRecordWriter"):
+                continue
+            for n in walk_local(f.node):
+                if isinstance(n, ast.Attribute) and n.attr == "byteCount" and isinstance(n.ctx, ast.Load):
+                    users.append(f"{m.relpath.rsplit('/', 1)[-1]}:{f.qualname}")
+    if users:
+        for p in ("rwInt", "rwFloat", "rwDouble", "rwString"):
+            need = _prim_facts(idx, awr, p)["counter"].get("numBytes") if awr.methods.get(p) else None
+            got = _counter_total(idx, ard, p)
+            r.require(need is not None and got == need, f"ascii:{p}:reader-count", ard.resolve(p),
+                      msg=f"{users[0]} reads record.byteCount to find how much of the record is left; the ascii writer counts {need} for {p} "
+                          f"but the ascii reader adds {got} to byteCount")
     # rwDouble (ascii) same text form as rwFloat on both sides
     fwd, fmtd, noded = writer_fmt("rwDouble")
     _, fmtf, _ = writer_fmt("rwFloat")
@@ -428,6 +581,16 @@ def r5_call_conformance(idx, r):
         npos = len(a.args) - 1
         ndef = len(a.defaults)
         sigs[name] = (npos - ndef, None if a.vararg else npos, [x.arg for x in a.args[1:]])
+    # the *shape arguments of the matrix primitives are each fed to range(): they must be integers
+    rwm = base.resolve("_rwMatrix")
+    if rwm is None or not rwm.node.args.vararg:
+        raise AnchorMissing("IORecord._rwMatrix(contents, func, *shape)")
+    va = rwm.node.args.vararg.arg
+    ranged = any(isinstance(g, ast.comprehension) and isinstance(g.iter, ast.Name) and g.iter.id == va for g in ast.walk(rwm.node)) and any(
+        isinstance(c, ast.Call) and dotted(c.func) == "range" for c in ast.walk(rwm.node))
+    if not ranged:
+        raise AnalysisError("_rwMatrix no longer iterates range(n) for n in *shape; revisit R09.5's shape rule")
+    matrix_meths = {n for n in RW if (base.resolve(n) is not None and base.resolve(n).node.args.vararg is not None)}
     for m, f, c, par in _rw_sites(idx):
         meth = call_attr(c)
         lo, hi, names = sigs[meth]
@@ -436,6 +599,13 @@ def r5_call_conformance(idx, r):
         if n < lo or (hi is not None and n > hi):
             r.violate(base_key, f, f"{meth} takes {lo}..{hi if hi is not None else 'n'} arguments ({', '.join(names)}), call passes {n}", node=c)
             continue
+        if meth in matrix_meths:
+            env = single_assign_env(f.node)
+            badshape = [a for a in c.args[1:] if isinstance(propagate(a, env), (ast.Tuple, ast.List, ast.Dict, ast.Set))]
+            if badshape:
+                r.violate(base_key, f, f"{meth}(contents, *shape): every shape argument is passed to range(); `{norm(badshape[0])[:60]}` is a tuple/list, not an integer "
+                          "(the record can be neither read nor written: TypeError)", node=c)
+                continue
         if meth == "rwList":
             ct = get_arg(c, 1, "containedType")
             cts = const_str(ct) if ct is not None else None
@@ -684,6 +854,76 @@ def r10_block_bandwidth(idx, r):
         raise AnalysisError("users of getBlockBandwidth not found")
 
 
+# ------------------------------------------------------------------------------------------------
+def r11_allocation(idx, r):
+    """Array storage filled element-wise from a record (`self.A[i, j] = rec.rwT(self.A[i, j])`) must get
+    the file's dimensions before it is indexed: in read mode the header has only just been read, so the
+    stream class must (re)bind that storage from an allocation outside __init__."""
+    done = set()
+    for m, f, c, par in _rw_sites(idx):
+        if not c.args or f.cls is None:
+            continue
+        env = _alias_env(f.node)
+        a = propagate(c.args[0], env)
+        if not isinstance(a, ast.Subscript) or not isinstance(a.slice, ast.Tuple):
+            continue
+        if all(isinstance(e, ast.Constant) for e in a.slice.elts) or any(isinstance(e, ast.Constant) and isinstance(e.value, str) for e in a.slice.elts):
+            continue  # dictionary key
+        base = a.value
+        chain = dotted(base)
+        if not chain:
+            continue
+        key = f"{m.relpath.rsplit('/', 1)[-1]}:{f.cls.name}:{chain}"
+        if key in done:
+            continue
+        done.add(key)
+        if not chain.startswith("self."):
+            local = chain.split(".")[0]
+            bound = any(isinstance(s.node, ast.Name) and s.attr == local for s in iter_stores(f.node, include_nested=False))
+            if bound:
+                r.ok(key, f, node=c, msg="local array bound in the same function")
+                continue
+            chains = []
+            if local in f.params() and "." not in chain:
+                pos = f.params().index(local) - 1
+                for g in f.cls.methods.values():
+                    for cc in iter_calls(g.node):
+                        if call_attr(cc) == f.name and isinstance(cc.func, ast.Attribute) and dotted(cc.func.value) == "self":
+                            arg = get_arg(cc, pos, local)
+                            while isinstance(arg, ast.Subscript):
+                                arg = arg.value
+                            if arg is not None and dotted(arg).startswith("self."):
+                                chains.append(dotted(arg))
+                            else:
+                                chains.append(None)
+            if not chains or None in chains:
+                r.undecided(key, f, f"`{chain}` is not rooted at self, not bound locally and not a parameter fed from self-rooted storage", node=c)
+                continue
+            chain_list = sorted(set(chains))
+        else:
+            chain_list = [chain]
+        for chain in chain_list:
+            _alloc_check(r, f, c, key + ("" if len(chain_list) == 1 and chain_list[0] in key else f"<-{chain}"), chain)
+
+
+def _alloc_check(r, f, c, key, chain):
+    if True:
+        # search the class (and its bases inside the cccc package) for a re-binding outside __init__
+        found = None
+        for k in f.cls.mro():
+            if not k.module.name.startswith("armi.nuclearDataIO"):
+                continue
+            for name, g in k.methods.items():
+                if name == "__init__":
+                    continue
+                for st in iter_stores(g.node):
+                    if st.kind == "assign" and st.chain == chain and isinstance(st.value, ast.Call):
+                        found = (g, st)
+        r.require(found is not None, key, f, node=c,
+                  msg=f"`{chain}` is indexed with file-derived loop bounds but is only ever bound in __init__ (before the header is read): "
+                      "reading a file cannot size it")
+
+
 def run(idx, chk):
     chk.explanation = (
         "C09: static reader/writer agreement for CCCC records: struct formats, byte counters and ASCII field widths of "
@@ -722,3 +962,5 @@ def run(idx, chk):
                  necessary="allocation/announcement and loop bound must agree or data is dropped from the record")
     chk.run_rule("R09.9", "no fresh mutable placeholder object is stored into two different fields of the container", lambda r: r9_no_shared_placeholder(idx, r), floor=10,
                  necessary="aliased fields cannot both hold what was read")
+    chk.run_rule("R09.11", "array storage filled element-wise from a record is allocated with the file's dimensions outside __init__", lambda r: r11_allocation(idx, r), floor=6,
+                 necessary="reading returns what was written only if the container is sized from the header that was just read")
